@@ -10,6 +10,10 @@ Decided (structural):
  c reify binds each distinct free variable (the walked variable) to a `_` variable created at
    that point (one LTerm::any() per binding);
  d LResult::constraints() = store.relevant(self.0.anyvars()).
+ (round 4) Constraint::operands lists every term field of its constraint exactly once
+   (finite check against the struct's typed fields; DistinctFd2.y excepted with reason);
+   SMap::operands / get_vars: every key unconditionally, every value exactly when it is a variable
+   - this is what constraints() / relevant() report per variable.
 """
 import streams
 import sym
@@ -283,3 +287,6 @@ def run(ctx, fb, cfg):
     ctx.floor(R + "K5.traversal", n, 8, "traversal functions")
     check_smap_reify_var(ctx, lib, R + "K3.fresh-any-per-var")
     check_lresult(ctx, lib, R + "K3.lresult-constraints")
+    import fdrules
+
+    fdrules.check_operands(ctx, lib, R + "K10.operands-complete")
